@@ -367,4 +367,17 @@ theorem required_lists_present (k : RKind) (l : RList) (v : JVal) (h : sdkResult
 /-- The one case in which nothing is sent: `resources/read` with nil contents is an error. -/
 example : (match sdkResultList .readResource .nil with | .errorInstead => true | _ => false) = true := rfl
 
+/-! ## F23 (known finding): the `text` member of an empty text resource -/
+
+/-- `resource_text_present_partial`: a resource with non-empty text, or with a (possibly empty,
+non-nil) blob, carries `text` or `blob`. -/
+theorem resource_text_present_partial (uri mime text : Bytes) (blob : Option Bytes) (m : Meta)
+    (h : text ≠ [] ∨ blob.isSome = true) : resourceOK (encodeResource uri mime text blob m) = true := by
+  by_cases h1 : uri = [] <;> by_cases h2 : mime = [] <;> by_cases h3 : text = [] <;> cases blob <;>
+    by_cases hm : m = [] <;>
+    simp [encodeResource, resourceOK, members, member, optStr, optObj, lookup, isStr, h1, h2, h3, hm] at h ⊢
+
+/-- F23, counter-example: an empty text resource is written as `{"uri":…}` — neither `text` nor `blob`. -/
+theorem f23_counterexample : resourceOK (encodeResource [117] [] [] none []) = false := by decide
+
 end Wire.L
